@@ -90,6 +90,13 @@ def add_struct_core(u, sh):
         tup = '(%s)' % ', '.join(['T'] * sh.dim)
         u.take_impl(P, 'impl<T> From<%s> for %s<T>' % (tup, N),
                     {'from': C(ensures=['res.%s == tuple.%d' % (f[i], i) for i in range(sh.dim)])}, mode='G')
+    # the derived PartialEq (real expansion of #[derive(PartialEq)]): element-wise equality, so that code comparing vectors is decided
+    hpe = 'impl<T: ::core::cmp::PartialEq> ::core::cmp::PartialEq for %s<T>' % N
+    if u.exp.impls(P, hpe):
+        u.take_impl(P, hpe, {'eq': C(ensures=['res == (%s)' % ' && '.join('self.%s.v@ == other.%s.v@' % (x, x) for x in f)])})
+        u.add(P, 'impl PartialEqSpecImpl for %s<R> {\n    open spec fn obeys_eq_spec() -> bool { true }\n'
+                 '    open spec fn eq_spec(&self, other: &%s<R>) -> bool { %s }\n}'
+              % (N, N, ' && '.join('self.%s.v@ == other.%s.v@' % (x, x) for x in f)))
     # From<T>: the meaning of a scalar operand
     u.take_impl(P, 'impl<T: Copy> From<T> for %s<T>' % N, mode='G')
     u.from_given.add(norm('impl<T: Copy> From<T> for %s<T>' % N))
